@@ -50,6 +50,9 @@ pub struct Report {
 	pub extra: BTreeMap<String, Value>,
 	/// set when a cap (wall/RSS/branch) stopped the part before the stated bound
 	pub capped: Option<String>,
+	/// canonical keys of visited states (explicit-state engines): unioned across shards so
+	/// that `states`/`distinct` count distinct states, not per-worker visits
+	pub state_keys: BTreeSet<u64>,
 }
 
 impl Report {
@@ -115,6 +118,16 @@ impl Report {
 		if self.capped.is_none() {
 			self.capped = o.capped;
 		}
+		for k in o.state_keys {
+			self.state_keys.insert(k);
+		}
+	}
+	/// for explicit-state parts: make states/distinct the size of the unioned key set
+	pub fn settle_states(&mut self) {
+		if !self.state_keys.is_empty() {
+			self.states = self.state_keys.len() as u64;
+			self.distinct = self.states;
+		}
 	}
 	pub fn to_json(&self) -> Value {
 		json!({
@@ -123,6 +136,7 @@ impl Report {
 			"samples": self.samples, "outcomes": self.outcomes,
 			"violations": self.violations.iter().map(|v| json!({"key": v.key, "what": v.what, "case": v.case})).collect::<Vec<_>>(),
 			"notes": self.notes, "extra": self.extra, "capped": self.capped,
+			"state_keys": self.state_keys.iter().collect::<Vec<_>>(),
 		})
 	}
 	pub fn from_json(v: &Value) -> Report {
@@ -158,6 +172,9 @@ impl Report {
 			}
 		}
 		r.capped = v["capped"].as_str().map(|s| s.to_string());
+		if let Some(a) = v["state_keys"].as_array() {
+			r.state_keys = a.iter().filter_map(|x| x.as_u64()).collect();
+		}
 		r
 	}
 }
